@@ -21,6 +21,8 @@ func propC04(c *Ctx) {
 	defer func() {
 		rfr := c.Rule("full-read", "every direct Read on an io.Reader in the decoder uses the byte count returned (a reader may deliver the stream in pieces)", 1)
 		ruleFullRead(c, rfr)
+		rdf := c.Rule("decode-fresh", "no decoder builds its result in storage read from its receiver: values decoded one after the other never share a backing array", 10)
+		ruleDecodeFresh(c, rdf)
 		rai := c.Rule("assert-inhabited", "every type assertion of the encoder to a concrete repository type targets a type of which values are placed into interfaces somewhere: an assertion to the encoder's own layout-twin of a uGO type can never succeed", 5)
 		ruleAssertInhabited(c, rai, func(pp string) bool { return pp == modPath+"/encoder" })
 		rgr := c.Rule("gob-register-cover", "every data object type the encoder has a codec for is registered with gob: such a value can be nested in an object that is written through gob", 8)
